@@ -23,6 +23,7 @@
 import TypedpyModel.Lemmas.EqLemmas
 import TypedpyModel.Lemmas.HashLemmas
 import TypedpyModel.Lemmas.CopyLemmas
+import TypedpyModel.Lemmas.CanonHash
 import TypedpyModel.Generated.Wrappers
 set_option linter.unusedVariables false
 set_option linter.unusedSimpArgs false
@@ -211,22 +212,22 @@ theorem copy_eq (R : Render) (d : EqCtx) (x : Inst) :
     an operation on one instance is validated against and applied to that instance only.  (Value
     semantics: that a deep / unpickled copy shares no mutable object with the original is what the
     `pairs` suite establishes on the real code.) -/
-theorem run2_frame (tbl : List MethodRec) (O : Oracles) (c : ClassOpts) (fields : List (String × FieldDecl)) :
+theorem run2_frame (bd : Bool) (tbl : List MethodRec) (O : Oracles) (c : ClassOpts) (fields : List (String × FieldDecl)) :
     ∀ (h : List (Side × Op)) (p : Inst × Inst),
-      (run2 tbl O c fields p h).1 =
-        ((runI tbl O c fields p.1 (sideOf .orig h)).1, (runI tbl O c fields p.2 (sideOf .copy h)).1)
-      ∧ sideOf .orig (run2 tbl O c fields p h).2 = (runI tbl O c fields p.1 (sideOf .orig h)).2
-      ∧ sideOf .copy (run2 tbl O c fields p h).2 = (runI tbl O c fields p.2 (sideOf .copy h)).2
+      (run2 bd tbl O c fields p h).1 =
+        ((runI bd tbl O c fields p.1 (sideOf .orig h)).1, (runI bd tbl O c fields p.2 (sideOf .copy h)).1)
+      ∧ sideOf .orig (run2 bd tbl O c fields p h).2 = (runI bd tbl O c fields p.1 (sideOf .orig h)).2
+      ∧ sideOf .copy (run2 bd tbl O c fields p h).2 = (runI bd tbl O c fields p.2 (sideOf .copy h)).2
   | [], p => by simp [run2, runI, sideOf]
   | (.orig, op) :: rest, p => by
-    have ih := run2_frame tbl O c fields rest ((stepI tbl O c fields p.1 op).1, p.2)
+    have ih := run2_frame bd tbl O c fields rest ((stepI bd tbl O c fields p.1 op).1, p.2)
     simp only [run2, sideOf, List.filter, List.map, runI] at ih ⊢
     simp only [show ((Side.orig == Side.orig) = true) from rfl, show ((Side.orig == Side.copy) = false) from rfl,
       List.map] at ih ⊢
     simp only [runI]
     exact ⟨ih.1, by rw [ih.2.1], ih.2.2⟩
   | (.copy, op) :: rest, p => by
-    have ih := run2_frame tbl O c fields rest (p.1, (stepI tbl O c fields p.2 op).1)
+    have ih := run2_frame bd tbl O c fields rest (p.1, (stepI bd tbl O c fields p.2 op).1)
     simp only [run2, sideOf, List.filter, List.map, runI] at ih ⊢
     simp only [show ((Side.copy == Side.copy) = true) from rfl, show ((Side.copy == Side.orig) = false) from rfl,
       List.map] at ih ⊢
@@ -247,28 +248,28 @@ theorem sideOf_map_copy (ops : List Op) :
 /-- **C11 (deepcopy independent)**: whatever history is applied to the copy, the original is
     unchanged, and the copy goes through exactly the states and outcomes of that history run on it
     alone -/
-theorem deepcopy_independent (tbl : List MethodRec) (O : Oracles) (c : ClassOpts)
+theorem deepcopy_independent (bd : Bool) (tbl : List MethodRec) (O : Oracles) (c : ClassOpts)
     (fields : List (String × FieldDecl)) (S : SetOrder) (x : Inst) (ops : List Op) :
-    let r := run2 tbl O c fields (x, deepcopyI c S x) (ops.map (fun op => (Side.copy, op)))
+    let r := run2 bd tbl O c fields (x, deepcopyI c S x) (ops.map (fun op => (Side.copy, op)))
     r.1.1 = x
-    ∧ r.1.2 = (runI tbl O c fields (deepcopyI c S x) ops).1
-    ∧ sideOf .copy r.2 = (runI tbl O c fields (deepcopyI c S x) ops).2 := by
+    ∧ r.1.2 = (runI bd tbl O c fields (deepcopyI c S x) ops).1
+    ∧ sideOf .copy r.2 = (runI bd tbl O c fields (deepcopyI c S x) ops).2 := by
   intro r
-  have h := run2_frame tbl O c fields (ops.map (fun op => (Side.copy, op))) (x, deepcopyI c S x)
+  have h := run2_frame bd tbl O c fields (ops.map (fun op => (Side.copy, op))) (x, deepcopyI c S x)
   rw [(sideOf_map_copy ops).1, (sideOf_map_copy ops).2] at h
   refine ⟨?_, ?_, h.2.2⟩
   · have := congrArg Prod.fst h.1; simpa [runI] using this
   · have := congrArg Prod.snd h.1; simpa using this
 
 /-- the same frame property for an unpickled copy, for every iteration order of its rebuilt sets -/
-theorem unpickled_frame (tbl : List MethodRec) (O : Oracles) (c : ClassOpts)
+theorem unpickled_frame (bd : Bool) (tbl : List MethodRec) (O : Oracles) (c : ClassOpts)
     (fields : List (String × FieldDecl)) (S : SetOrder) (x : Inst) (ops : List Op) :
-    let r := run2 tbl O c fields (x, pickleI S x) (ops.map (fun op => (Side.copy, op)))
+    let r := run2 bd tbl O c fields (x, pickleI S x) (ops.map (fun op => (Side.copy, op)))
     r.1.1 = x
-    ∧ r.1.2 = (runI tbl O c fields (pickleI S x) ops).1
-    ∧ sideOf .copy r.2 = (runI tbl O c fields (pickleI S x) ops).2 := by
+    ∧ r.1.2 = (runI bd tbl O c fields (pickleI S x) ops).1
+    ∧ sideOf .copy r.2 = (runI bd tbl O c fields (pickleI S x) ops).2 := by
   intro r
-  have h := run2_frame tbl O c fields (ops.map (fun op => (Side.copy, op))) (x, pickleI S x)
+  have h := run2_frame bd tbl O c fields (ops.map (fun op => (Side.copy, op))) (x, pickleI S x)
   rw [(sideOf_map_copy ops).1, (sideOf_map_copy ops).2] at h
   refine ⟨?_, ?_, h.2.2⟩
   · have := congrArg Prod.fst h.1; simpa [runI] using this
@@ -289,14 +290,14 @@ theorem pickle_state (S : SetOrder) (x : Inst) (hi : x.instantiated = true)
     states and outcomes that the same history produces on the instance it was pickled from —
     immutability and every validation included.  (`hfix`: the rebuilt sets iterate as before, e.g.
     `S = id`, see `rebuildAttrs_id`; for other orders `unpickled_frame` and `pickle_eq` apply.) -/
-theorem unpickled_independent (tbl : List MethodRec) (O : Oracles) (c : ClassOpts)
+theorem unpickled_independent (bd : Bool) (tbl : List MethodRec) (O : Oracles) (c : ClassOpts)
     (fields : List (String × FieldDecl)) (S : SetOrder) (x : Inst) (ops : List Op)
     (hi : x.instantiated = true) (hfix : rebuildAttrs S x.attrs = x.attrs) :
-    let r := run2 tbl O c fields (x, pickleI S x) (ops.map (fun op => (Side.copy, op)))
+    let r := run2 bd tbl O c fields (x, pickleI S x) (ops.map (fun op => (Side.copy, op)))
     r.1.1 = x
-    ∧ r.1.2 = (runI tbl O c fields x ops).1
-    ∧ sideOf .copy r.2 = (runI tbl O c fields x ops).2 := by
-  have h := unpickled_frame tbl O c fields S x ops
+    ∧ r.1.2 = (runI bd tbl O c fields x ops).1
+    ∧ sideOf .copy r.2 = (runI bd tbl O c fields x ops).2 := by
+  have h := unpickled_frame bd tbl O c fields S x ops
   rw [pickle_state S x hi hfix] at h ⊢
   exact h
 
@@ -310,18 +311,18 @@ def exImmInst : Inst := { cls := "I", attrs := [("x", .int 1)] }
 /-- an immutable instance stays immutable through a pickle round trip: for every class, every
     instance and every rebuilt-set order, assignment to the unpickled copy of an
     ImmutableStructure is refused and leaves it unchanged -/
-theorem unpickled_immutable_protected (tbl : List MethodRec) (O : Oracles) (c : ClassOpts)
+theorem unpickled_immutable_protected (bd : Bool) (tbl : List MethodRec) (O : Oracles) (c : ClassOpts)
     (fields : List (String × FieldDecl)) (S : SetOrder) (x : Inst) (f : String) (v : PyVal)
     (hc : c.immutable = true) :
-    stepI tbl O c fields (pickleI S x) (.setattr f v) = (pickleI S x, .err .valueErr) := by
+    stepI bd tbl O c fields (pickleI S x) (.setattr f v) = (pickleI S x, .err .valueErr) := by
   simp only [stepI, pickleI, hc, Bool.and_self, setattrStep, setattrUndef, if_true]
   split <;> rfl
 
 /-- non-vacuity / former finding `unpickled:immutable-setattr-unprotected`: assignment is refused
     on the instance and on its unpickled copy alike, and the copy `==` the original -/
 theorem unpickled_immutable_example :
-    (stepI Generated.wrappers exO exImm exImmFields exImmInst (.setattr "x" (.int 2))).2 = .err .valueErr
-    ∧ (stepI Generated.wrappers exO exImm exImmFields (pickleI id exImmInst) (.setattr "x" (.int 2))).2
+    (stepI Generated.nestedBound Generated.wrappers exO exImm exImmFields exImmInst (.setattr "x" (.int 2))).2 = .err .valueErr
+    ∧ (stepI Generated.nestedBound Generated.wrappers exO exImm exImmFields (pickleI id exImmInst) (.setattr "x" (.int 2))).2
         = .err .valueErr
     ∧ instEq {} exImmInst (pickleI id exImmInst) = true := by decide
 
@@ -501,20 +502,20 @@ theorem undef_unset_vs_none_example :
     instEq exU exUnset exNone = false ∧ instEq exU exNone exUnset = false
     ∧ PyVal.pyEq (getA exU exUnset "b") undefinedV = true ∧ PyVal.pyEq (getA exU exNone "b") .none = true
     ∧ (hashKey exR exUnset == hashKey exR exNone) = false
-    ∧ instEq exU (stepI Generated.wrappers exO exUC exUFields exUnset (.setattr "b" .none)).1 exNone = true
-    ∧ instEq exU (stepI Generated.wrappers exO exUC exUFields exNone (.setattr "b" (.int 2))).1
+    ∧ instEq exU (stepI Generated.nestedBound Generated.wrappers exO exUC exUFields exUnset (.setattr "b" .none)).1 exNone = true
+    ∧ instEq exU (stepI Generated.nestedBound Generated.wrappers exO exUC exUFields exNone (.setattr "b" (.int 2))).1
         { cls := "C", attrs := [("a", .int 1), ("b", .int 2)], undef := true } = true := by
   decide
 
 /-- on such a class `x.f = None` for a non-required (not immutable) field of a mutable instance
     is never stored: the name is recorded in `_none_fields` and whatever `__dict__` held for it is
     removed (since ed6dbae), so the field reads `None` afterwards -/
-theorem setattr_none_recorded (tbl : List MethodRec) (O : Oracles) (c : ClassOpts)
+theorem setattr_none_recorded (bd : Bool) (tbl : List MethodRec) (O : Oracles) (c : ClassOpts)
     (fields : List (String × FieldDecl)) (x : Inst) (f : String) (fd : FieldDecl)
     (hu : x.undef = true) (hm : c.immutable = false) (hf : lookup f fields = some fd)
     (hr : c.required.contains f = false)
     (hi : c.immFields.contains f = false ∨ lookup f x.attrs = none) :
-    stepI tbl O c fields x (.setattr f .none)
+    stepI bd tbl O c fields x (.setattr f .none)
       = ({ x with nones := addName f x.nones, attrs := assocDel f x.attrs }, .ok) := by
   have hg : (c.immFields.contains f && (lookup f x.attrs).isSome) = false := by
     rcases hi with h | h
@@ -526,12 +527,12 @@ theorem setattr_none_recorded (tbl : List MethodRec) (O : Oracles) (c : ClassOpt
 
 /-- … and on an immutable field that already holds a value it is refused and changes nothing
     (since f1caf24), like every other assignment to such a field -/
-theorem setattr_none_immutable_field_refused (tbl : List MethodRec) (O : Oracles) (c : ClassOpts)
+theorem setattr_none_immutable_field_refused (bd : Bool) (tbl : List MethodRec) (O : Oracles) (c : ClassOpts)
     (fields : List (String × FieldDecl)) (x : Inst) (f : String) (fd : FieldDecl) (w : PyVal)
     (hu : x.undef = true) (hf : lookup f fields = some fd)
     (hr : c.required.contains f = false) (hi : c.immFields.contains f = true)
     (hs : lookup f x.attrs = some w) :
-    stepI tbl O c fields x (.setattr f .none) = (x, .err .valueErr) := by
+    stepI bd tbl O c fields x (.setattr f .none) = (x, .err .valueErr) := by
   simp only [stepI, setattrUndef, hu, hf, hr, hi, hs, PyVal.isNone, if_true, Bool.false_and,
     Bool.false_eq_true, if_false, Option.isSome_some, Bool.not_true, Bool.not_false, Bool.and_self,
     Bool.true_and]
@@ -552,13 +553,13 @@ theorem pickle_keeps_nones_example :
     the result is `==` `C(a=1, b=None)`, reads `b` as `None`, and is told apart from `C(a=1, b=5)`
     by `==` and by the values read back alike -/
 theorem none_replaces_value_example :
-    (stepI Generated.wrappers exO exUC exUFields
+    (stepI Generated.nestedBound Generated.wrappers exO exUC exUFields
         { cls := "C", attrs := [("a", .int 1), ("b", .int 5)], undef := true } (.setattr "b" .none)).1.nones = ["b"]
-    ∧ instEq exU (stepI Generated.wrappers exO exUC exUFields
+    ∧ instEq exU (stepI Generated.nestedBound Generated.wrappers exO exUC exUFields
         { cls := "C", attrs := [("a", .int 1), ("b", .int 5)], undef := true } (.setattr "b" .none)).1 exNone = true
-    ∧ PyVal.pyEq (getA exU (stepI Generated.wrappers exO exUC exUFields
+    ∧ PyVal.pyEq (getA exU (stepI Generated.nestedBound Generated.wrappers exO exUC exUFields
         { cls := "C", attrs := [("a", .int 1), ("b", .int 5)], undef := true } (.setattr "b" .none)).1 "b") .none = true
-    ∧ instEq exU (stepI Generated.wrappers exO exUC exUFields
+    ∧ instEq exU (stepI Generated.nestedBound Generated.wrappers exO exUC exUFields
         { cls := "C", attrs := [("a", .int 1), ("b", .int 5)], undef := true } (.setattr "b" .none)).1
         { cls := "C", attrs := [("a", .int 1), ("b", .int 5)], undef := true } = false := by
   decide
@@ -568,15 +569,15 @@ theorem none_replaces_value_example :
     — `__dict__` and `_none_fields` — stays `==` what it was; on a not yet set immutable field the
     explicit `None` is recorded as on any other field -/
 theorem none_over_immutable_field_example :
-    (stepI Generated.wrappers exO { exUC with immFields := ["b"] } exUFields
+    (stepI Generated.nestedBound Generated.wrappers exO { exUC with immFields := ["b"] } exUFields
         { cls := "C", attrs := [("a", .int 1), ("b", .int 5)], undef := true } (.setattr "b" .none)).2
         = .err .valueErr
-    ∧ (stepI Generated.wrappers exO { exUC with immFields := ["b"] } exUFields
+    ∧ (stepI Generated.nestedBound Generated.wrappers exO { exUC with immFields := ["b"] } exUFields
         { cls := "C", attrs := [("a", .int 1), ("b", .int 5)], undef := true } (.setattr "b" .none)).1.nones = []
-    ∧ instEq exU (stepI Generated.wrappers exO { exUC with immFields := ["b"] } exUFields
+    ∧ instEq exU (stepI Generated.nestedBound Generated.wrappers exO { exUC with immFields := ["b"] } exUFields
         { cls := "C", attrs := [("a", .int 1), ("b", .int 5)], undef := true } (.setattr "b" .none)).1
         { cls := "C", attrs := [("a", .int 1), ("b", .int 5)], undef := true } = true
-    ∧ instEq exU (stepI Generated.wrappers exO { exUC with immFields := ["b"] } exUFields exUnset
+    ∧ instEq exU (stepI Generated.nestedBound Generated.wrappers exO { exUC with immFields := ["b"] } exUFields exUnset
         (.setattr "b" .none)).1 exNone = true := by
   decide
 
@@ -594,7 +595,7 @@ theorem eq_hash_counterexample_default_absent :
     ∧ (hashKey exR { cls := "C", attrs := [("a", .int 1)] }
         == hashKey exR { cls := "C", attrs := [("a", .int 1), ("b", .int 0)] }) = false
     ∧ sameSpellI { cls := "C", attrs := [("a", .int 1)] } { cls := "C", attrs := [("a", .int 1), ("b", .int 0)] } = false
-    ∧ (stepI Generated.wrappers exO exUC exUFields { cls := "C", attrs := [("a", .int 1), ("b", .int 0)] }
+    ∧ (stepI Generated.nestedBound Generated.wrappers exO exUC exUFields { cls := "C", attrs := [("a", .int 1), ("b", .int 0)] }
         (.delitem "b")).1.attrs = [("a", .int 1)] := by
   refine ⟨by decide, by decide, by decide, by decide, by rfl⟩
 
@@ -608,6 +609,105 @@ theorem explicit_none_reads_none_example :
     ∧ PyVal.pyEq (getA exD { cls := "C", attrs := [("a", .int 1)], nones := ["b"], undef := true } "b") .none = true
     ∧ PyVal.pyEq (getA exD { cls := "C", attrs := [("a", .int 1)], nones := ["b"], undef := true } "b")
                  (getA exD { cls := "C", attrs := [("a", .int 1), ("b", .int 0)], undef := true } "b") = false := by
+  decide
+
+/-! ### the repaired hash (proposed_fixes/C11-canonical-hash.diff): `a == b → hash(a) == hash(b)` in full -/
+
+theorem okValS_getA (d : EqCtx) (a : Inst) (k : String) (h : okInstS d a = true) :
+    okValS (getA d a k) = true := by
+  simp only [okInstS, Bool.and_eq_true, okAttrsS_iff] at h
+  unfold getA
+  cases ha : lookup k a.attrs with
+  | some v => exact h.1.1 (k, v) (lookup_mem' k _ v ha)
+  | none =>
+    simp only
+    split
+    · split <;> rfl
+    · cases hd : lookup k d.defaults with
+      | some v => exact h.1.2 (k, v) (lookup_mem' k _ v hd)
+      | none => rfl
+
+/-- the full statement for the repaired hash -/
+def eq_canon_hash_statement (H : HashO) : Prop :=
+  ∀ (d : EqCtx) (a b : Inst), okInstS d a = true → okInstS d b = true →
+    instEq d a b = true → canonHashI H d a = canonHashI H d b
+
+/-- **C11 (eq ⇒ hash, FULL, for the repaired `__hash__`)**: instances that are `==` hash alike —
+    whatever the Python types of their equal numbers (int / float / bool / Decimal, any exponent),
+    the iteration orders of their sets and dicts, set versus frozenset, attributes holding `None`
+    versus absent ones, defaulted fields absent from `__dict__`, the insertion order of `__dict__`
+    — for every built-in `hash` that meets Python's contract (`HashO.Respects`).  No exclusion: the
+    only hypotheses are the representation invariants of values read back from Python. -/
+theorem eq_canon_hash (H : HashO) (hH : H.Respects) : eq_canon_hash_statement H := by
+  intro d a b oka okb heq
+  obtain ⟨hc, hu, hall, hn⟩ := (instEq_fieldwise d a b).1 heq
+  have hentry : ∀ k, canonEntry H d a k = canonEntry H d b k := by
+    intro k
+    have e := hall k
+    have hh := cHash_of_pyEq H hH _ (okValS_getA d a k oka) _ (okValS_getA d b k okb) e
+    unfold canonEntry
+    cases ha : (getA d a k).isNone <;> cases hb : (getA d b k).isNone
+    · simp only [Bool.false_eq_true, if_false, hh]
+    · rw [isNone_iff.1 hb] at e; rw [pyEq_none_right e] at ha; cases ha
+    · rw [isNone_iff.1 ha] at e; rw [pyEq_none_left e] at hb; cases hb
+    · rfl
+  have hfun : canonEntry H d a = canonEntry H d b := funext hentry
+  unfold canonHashI
+  rw [hc, hfun]
+  congr 1
+  · apply hH.frozen_perm
+    apply c11_filterMap_perm (nodup_dedupS _) (nodup_dedupS _)
+    intro k hk
+    constructor
+    · intro _
+      apply Classical.byContradiction
+      intro hnot
+      have := getA_none_of_not_name d b k hnot
+      simp [canonEntry, this, PyVal.isNone] at hk
+    · intro _
+      apply Classical.byContradiction
+      intro hnot
+      have := getA_none_of_not_name d a k hnot
+      rw [← hentry k] at hk
+      simp [canonEntry, this, PyVal.isNone] at hk
+  · apply hH.frozen_perm
+    apply List.Perm.map
+    simp only [okInstS, Bool.and_eq_true] at oka okb
+    apply (List.perm_ext_iff_of_nodup (List.nodup_iff_pairwise_ne.2 (keysDistinct_pairwise _ oka.2))
+      (List.nodup_iff_pairwise_ne.2 (keysDistinct_pairwise _ okb.2))).2
+    intro k
+    have := namesEq_contains _ _ hn k
+    simp only [List.contains_eq_mem, decide_eq_decide] at this
+    exact this
+
+/-- an example built-in hash meeting the contract: numbers hash their integer part's… sign-free
+    normal form is not needed — every number hashes to 0, a frozenset to the SUM of its members -/
+def exH : HashO :=
+  { noneH := 1, num := fun _ => 0, str := fun s => s.length + 2, enumv := fun _ n => n.length + 3,
+    foreign := fun t => t.length + 5, seq := fun l => l.foldl (fun acc x => 31 * acc + x) 7,
+    pair := fun a b => 1000 * a + b, frozen := fun l => l.sum,
+    inst := fun c a n => 1000000 * c + 1000 * a + n }
+
+theorem exH_respects : exH.Respects :=
+  ⟨fun _ _ _ _ _ => rfl, fun _ _ hp => hp.sum_nat⟩
+
+/-- non-vacuity: every spelling that today's `__hash__` tells apart (the findings' counterexamples)
+    hashes alike under the repaired one, and instances that differ do not collide in the example -/
+theorem eq_canon_hash_example :
+    (canonHashI exH {} { cls := "A", attrs := [("x", .int 1)] } == canonHashI exH {} { cls := "A", attrs := [("x", .float ⟨1, 1⟩)] }) = true
+    ∧ (canonHashI exH {} { cls := "A", attrs := [("x", .bool true)] } == canonHashI exH {} { cls := "A", attrs := [("x", .dec ⟨10, 10⟩)] }) = true
+    ∧ (canonHashI exH {} { cls := "A", attrs := [("m", .dict [(.str "a", .int 1), (.str "b", .int 2)])] }
+        == canonHashI exH {} { cls := "A", attrs := [("m", .dict [(.str "b", .int 2), (.str "a", .int 1)])] }) = true
+    ∧ (canonHashI exH {} { cls := "A", attrs := [("s", .set false [.int 0, .int 8])] }
+        == canonHashI exH {} { cls := "A", attrs := [("s", .set true [.int 8, .int 0])] }) = true
+    ∧ (canonHashI exH {} { cls := "A", attrs := [("x", .int 1), ("extra", .none)] }
+        == canonHashI exH {} { cls := "A", attrs := [("x", .int 1)] }) = true
+    ∧ (canonHashI exH exD { cls := "C", attrs := [("a", .int 1)] }
+        == canonHashI exH exD { cls := "C", attrs := [("b", .int 0), ("a", .int 1)] }) = true
+    ∧ instEq exD { cls := "C", attrs := [("a", .int 1)] } { cls := "C", attrs := [("b", .int 0), ("a", .int 1)] } = true
+    ∧ okInstS exD { cls := "C", attrs := [("b", .int 0), ("a", .int 1)] } = true
+    ∧ (canonHashI exH {} { cls := "A", attrs := [("x", .str "a")] }
+        == canonHashI exH {} { cls := "A", attrs := [("x", .str "ab")] }) = false := by
   decide
 
 end Typedpy.C11
